@@ -147,6 +147,170 @@ def systematic(rng):
   yield mk_case([{'op': 'assign', 'fn': f('v_add1'), 'in': {'one': N('v')}, 'keys': {'one': N('o')}, 'fn_batch': 0, 'batch': 2}], cols)
 
 
+def nested_items(rng, n):
+  """dict records with nested containers of every kind: c = {d: int, l: [..], t: (..), m: {k: int}}"""
+  items = []
+  for i in range(n):
+    a, b = rng.randrange(0, 9), rng.randrange(0, 9)
+    items.append(G.wd(a=a, b=b, c=G.wd(d=i, l=G.wl([a + 10, b + 10]), t={'t': [a, b]}, m=G.wd(k=i))))
+  return items
+
+
+DK = lambda *items: {'dk': [list(it) for it in items]}
+
+
+def nested_assign_cases(rng):
+  """`assign` with SEVERAL output keys of which at least one is a NESTED path into a container that already exists in
+  the (dict) record — a dict, a list (overwrite / append at len), a tuple — also as the record key of a dict-form key;
+  alone, behind a sink that keeps what it was given (the whole record / the nested container), behind a filter, behind
+  another assign, followed by another nested assign; over a stream that delivers the same record objects twice.
+  What is observed besides the stream: the caller's records (deep snapshot + identity of every container), what the
+  sinks hold, and that no container on a written path of an output is a caller object."""
+  f = lambda n, **kw: dict(f=n, **kw)
+  one_a = {'one': N('a')}
+  keysets = [
+      ('pair', one_a, {'many': [N('x'), P('c', 'z')]}),
+      ('pair', one_a, {'many': [P('c', 'z'), N('x')]}),
+      ('pair', one_a, {'many': [P('c', 'l', 0), N('x')]}),
+      ('pair', one_a, {'many': [P('c', 'l', 2), P('c', 'd')]}),
+      ('pair', one_a, {'many': [P('c', 't', 1), N('x')]}),
+      ('pair', one_a, {'many': [P('c', 'm', 'k'), P('c', 'm', 'j')]}),
+      ('triple', one_a, {'many': [N('x'), P('c', 'z'), P('c', 'l', 1)]}),
+      ('swap', {'many': [N('a'), N('b')]}, {'many': [P('c', 'u', 'v'), N('y')]}),
+      ('mk_dict', one_a, {'one': DK(('x', N('u')), (P('c', 'z'), P('v')))}),
+      ('mk_dict', one_a, {'one': DK((P('c', 'm', 'k'), N('u')), (P('c', 'l', 0), N('v')))}),
+      ('tup', {'many': [N('c'), N('a')]}, {'many': [DK((P('c', 'z'), N('d'))), N('x')]}),
+      ('add1', one_a, {'one': P('c', 'z')}),                       # control: one nested key
+      ('pair', one_a, {'many': [N('x'), N('y')]}),                 # control: several flat keys
+  ]
+  before = [[], [{'op': 'sink', 'fn': f('ident'), 'in': {'one': SELF}, 'is_sink': True}],
+            [{'op': 'sink', 'fn': f('ident'), 'in': {'one': N('c')}, 'is_sink': True}],
+            [{'op': 'filter', 'fn': f('gt', c=-1), 'in': {'one': N('a')}}],
+            [{'op': 'assign', 'fn': f('add1'), 'in': {'one': N('a')}, 'keys': {'one': N('g')}}]]
+  after = [[], [{'op': 'assign', 'fn': f('add1'), 'in': {'one': N('a')}, 'keys': {'one': P('c', 'w')}}]]
+  i = 0
+  for fn, ins, keys in keysets:
+    for b in before:
+      for a in after:
+        i += 1
+        specs = copy.deepcopy(b) + [{'op': 'assign', 'fn': f(fn), 'in': ins, 'keys': keys}] + copy.deepcopy(a)
+        c = mk_case(specs, nested_items(rng, 3), tag='nested-assign')
+        if i % 2:
+          c['src']['twice'] = True
+        yield c
+
+
+def builder_cases():
+  """The builder's key-set rule, systematically: every operator kind that produces record keys x every key form
+  (plain, tuple, dict-form with record key != source name, Key path, SELF) x an operator in between that leaves the keys
+  alone (none / filter / sink) x an assign whose key form names a produced key, a fresh key, or mentions a produced
+  key only on the SOURCE side of a dict-form key.  Every function is a constant, so accepted chains also run."""
+  const = lambda v: {'f': 'const', 'c': v}
+  d_uv = G.wd(u=1, v=2, x=3)
+  t2 = {'t': [5, 6]}
+  t_d = {'t': [5, G.wd(u=1, v=2, d=3)]}
+  asg = lambda keys, v: {'op': 'assign', 'fn': const(v), 'in': {'one': SELF}, 'keys': keys}
+  app = lambda out, v: {'op': 'apply', 'fn': const(v), 'in': {'one': SELF}, 'out': out}
+  producers = [
+      ('assign:plain', [asg({'one': N('x')}, 5)]),
+      ('assign:plain-u', [asg({'one': N('u')}, 5)]),
+      ('assign:tuple', [asg({'many': [N('x'), N('y')]}, t2)]),
+      ('assign:dict', [asg({'one': DK(('x', N('u')), ('y', N('v')))}, d_uv)]),
+      ('assign:tuple+dict', [asg({'many': [N('w'), DK(('x', N('u')))]}, t_d)]),
+      ('assign:path', [asg({'one': P('x')}, 5)]),
+      ('assign:nested-path', [asg({'one': P('x', 'w')}, 5)]),
+      ('assign:dict-path-key', [asg({'one': DK((P('x', 'w'), N('u')))}, d_uv)]),
+      ('apply:plain', [app({'one': N('x')}, 5)]),
+      ('apply:tuple', [app({'many': [N('x'), N('u')]}, t2)]),
+      ('apply:dict', [app({'one': DK(('x', N('u')), ('y', N('v')))}, d_uv)]),
+      ('apply:self', [app({'one': SELF}, G.wd(x=1, u=2))]),
+      ('select:renamed', [{'op': 'select', 'in': {'many': [N('a'), N('b')]}, 'out': {'many': [N('x'), N('u')]}}]),
+      ('select:default', [{'op': 'select', 'in': {'many': [N('a'), N('b')]}}]),
+      ('select+batch', [{'op': 'select', 'in': {'one': N('a')}, 'out': {'one': N('x')}}, {'op': 'batch', 'n': 2}]),
+      ('assign+select-drops', [asg({'one': N('x')}, 5), {'op': 'select', 'in': {'one': N('a')}}]),
+      ('none', []),
+  ]
+  mids = [('none', []), ('filter', [{'op': 'filter', 'fn': const(1), 'in': {'one': SELF}}]),
+          ('sink', [{'op': 'sink', 'fn': const(0), 'in': {'one': SELF}, 'is_sink': True}])]
+  consumers = [
+      ('plain-x', {'one': N('x')}, 7), ('plain-fresh', {'one': N('q')}, 7), ('path-x', {'one': P('x')}, 7),
+      ('tuple-x', {'many': [N('q'), N('x')]}, t2),
+      ('dict-key-x', {'one': DK(('x', N('u')))}, d_uv),                     # record key x, read from 'u'
+      ('dict-src-x', {'one': DK(('q', N('x')))}, d_uv),                     # record key q, read from 'x': legal
+      ('dict-src-u', {'one': DK(('q', N('u')))}, d_uv),
+      ('dict-2nd-x', {'one': DK(('q', N('u')), ('x', N('v')))}, d_uv),
+      ('tuple+dict-key-x', {'many': [N('q'), DK(('x', N('d')))]}, t_d),
+      ('tuple+dict-src-x', {'many': [N('q'), DK(('r', N('u')))]}, t_d),
+      ('dict-path-key', {'one': DK((P('x', 'w'), N('u')))}, d_uv),
+      ('self', {'one': SELF}, 7), ('self+q', {'many': [SELF, N('q')]}, t2),
+      ('dict-src-self', {'one': DK(('q', SELF))}, 7),                        # the whole output under q: legal
+      ('dict-key-self', {'one': DK((SELF, N('u')))}, d_uv),
+      ('dict-twice-q', {'one': DK(('q', N('u')), ('q2', N('u')))}, d_uv),    # two record keys from one source: legal
+  ]
+  items = [G.wd(a=1, b=2), G.wd(a=3, b=4)]
+  for pn, prod in producers:
+    for mn, mid in mids:
+      for cn, keys, v in consumers:
+        c = mk_case(copy.deepcopy(prod) + copy.deepcopy(mid) + [asg(copy.deepcopy(keys), v)], copy.deepcopy(items),
+                    tag=f'builder:{pn}/{mn}/{cn}')
+        yield c
+
+
+def arms_of(case):
+  """the promised arms a case exercises (computed from the case, so random cases count too)"""
+  arms = []
+  specs = case['specs']
+  items = case['src']['items']
+  first = items[0].get('d') if items and isinstance(items[0], dict) and 'd' in items[0] else None
+  produced = []
+  for sp in specs:
+    op = sp['op']
+    if op == 'assign':
+      ks = _norm_keys(sp['keys'])
+      flat = _flat(sp['keys'])
+      def nested_existing(k):
+        p = L._key_path(k)       # pylint: disable=protected-access
+        return bool(p and len(p) >= 2 and first is not None and isinstance(first.get(p[0]), dict) and
+                    any(t in first[p[0]] for t in ('d', 'l', 't')))
+      if len(flat) >= 2 and any(nested_existing(k) for k in flat) and not produced_replaced(specs, sp):
+        arms.append('assign: several keys, one a nested path into an existing container')
+        if any('dk' in k for k in ks):
+          arms.append('assign: dict-form key whose record key is a nested path into an existing container')
+        if specs.index(sp) > 0 and specs[specs.index(sp) - 1]['op'] == 'sink':
+          arms.append('assign (several keys, nested) directly behind a sink')
+        if case['src'].get('twice'):
+          arms.append('assign (several keys, nested) over record objects that occur twice')
+      for k in ks:
+        if 'dk' in k:
+          for n, src in k['dk']:
+            rk = L.rk_json(n)
+            if jdump(rk) != jdump(src):
+              arms.append('dict-form assign key: record key != source name')
+            if jdump(rk) in produced and jdump(rk) != jdump(src):
+              arms.append('dict-form assign key: record key already produced (must be rejected)')
+            if jdump(src) in produced and jdump(rk) not in produced:
+              arms.append('dict-form assign key: only the SOURCE name equals a produced key (legal)')
+            if 'self' in src:
+              arms.append('dict-form assign key: source SELF')
+      produced += [jdump(k) for k in flat]
+    elif op == 'apply':
+      produced = [jdump(k) for k in _flat(sp['out'])]
+    elif op == 'select':
+      out = sp.get('out')
+      produced = [jdump(k) for k in _flat(out if out is not None and _flat(out) else _in_keys(sp['in']))]
+  return arms
+
+
+def produced_replaced(specs, sp):
+  """an apply / select / batch in front of `sp` replaced the source records (the nested containers are then not the
+  caller's)"""
+  return any(s['op'] in ('apply', 'select', 'batch') for s in specs[:specs.index(sp)])
+
+
+def _norm_keys(spec):
+  return [spec['one']] if 'one' in spec else list(spec.get('many', []))
+
+
 def gen_cases(ctx):
   rng, quick = ctx.rng, ctx.quick
 
@@ -163,10 +327,14 @@ def gen_cases(ctx):
               ctx.count('key_shape', shape)
       if c.get('threads'):
         ctx.count('threads', c['threads'])
+      for arm in arms_of(c):
+        ctx.count('arm', arm)
       yield c
 
   yield from counted(ctx.corpus(), 'corpus')
   yield from counted(systematic(rng), 'systematic')
+  yield from counted(nested_assign_cases(rng), 'nested-assign')
+  yield from counted(builder_cases(), 'builder')
 
   def rand(n):
     for _ in range(n):
@@ -197,7 +365,15 @@ REQUIRED = {
     'operator': ['select', 'apply', 'assign', 'filter', 'batch', 'sink', 'aggregate', 'apply+batch', 'select+batch', 'assign+batch'],
     'key_shape': ['single', 'kwargs', 'tuple0', 'tuple1', 'tuple2', 'tuple3', 'bare-name', 'index', 'path-1', 'path-nested',
                   'path-with-index', 'dict-output-key', 'SELF', 'SKIP', 'LIT'],
-    'class': ['systematic', 'typed', 'wild', 'threads'],
+    'class': ['systematic', 'typed', 'wild', 'threads', 'nested-assign', 'builder'],
+    'arm': ['assign: several keys, one a nested path into an existing container',
+            'assign: dict-form key whose record key is a nested path into an existing container',
+            'assign (several keys, nested) directly behind a sink',
+            'assign (several keys, nested) over record objects that occur twice',
+            'dict-form assign key: record key != source name',
+            'dict-form assign key: record key already produced (must be rejected)',
+            'dict-form assign key: only the SOURCE name equals a produced key (legal)',
+            'dict-form assign key: source SELF'],
     'outcome': ['built', 'rejected:ValueError', 'rejected:KeyError', 'rejected:TypeError'],
 }
 
@@ -507,7 +683,7 @@ def _flat(spec):
   out = []
   for k in ks:
     if 'dk' in k:
-      out += [{'n': n} for n, _ in k['dk']]
+      out += [L.rk_json(n) for n, _ in k['dk']]
     else:
       out.append(k)
   return out
